@@ -20,7 +20,7 @@ VERIF = os.path.dirname(os.path.dirname(os.path.abspath(__file__)))
 if VERIF not in sys.path:
     sys.path.insert(0, VERIF)
 
-from harness import run, scenario, tracecheck, tlc  # noqa: E402
+from harness import run, scenario, tracecheck, tlc, genmc, replay_model, families  # noqa: E402
 from harness.world import HarnessError  # noqa: E402
 
 NCPU = int(os.environ.get("VERIF_JOBS", "16"))
@@ -85,7 +85,15 @@ def drv_scn(scn, seed):
     return tr
 
 
-DRIVERS = {"random_hpc": drv_random_hpc, "scn": drv_scn}
+def drv_model_replay(scn, path, maxb, elog):
+    mr = replay_model.ModelReplay(scn, path, maxb)
+    tr, div = mr.run()
+    diff = None if div else replay_model.compare(elog, tr, mr.sync_index)
+    tr["conformance"] = {"diverged": div, "diff": diff}
+    return tr
+
+
+DRIVERS = {"random_hpc": drv_random_hpc, "scn": drv_scn, "model_replay": drv_model_replay}
 
 
 # ------------------------------------------------------------------ known findings
@@ -142,6 +150,68 @@ class Ctx:
         if expect_ok and not ok:
             # a committed model that no longer passes is a machinery problem, not a verdict about the code
             raise tlc.TlcError(f"model {name} did not pass:\n" + res["out"][-3000:])
+        return res
+
+    def impl_model(self, name, scns, maxb=3, maxuser=3, fixed=("F1",), simulate=None, max_replay=400, invariants=None,
+                   timeout=1500):
+        """Explore JadeImpl on the given scenarios (exhaustively, or by simulation), then replay the behaviours TLC
+        produced into the real code: events predicted by the model vs. events observed (conformance), and the real
+        traces are judged by the monitor like any other."""
+        gen = os.path.join(VERIF, "out", "gen")
+        os.makedirs(gen, exist_ok=True)
+        mod = "MC_" + re.sub(r"[^A-Za-z0-9]", "_", name) + f"_{os.getpid()}"
+        recs = [scenario.tla_scn(s, f"s{i}") for i, s in enumerate(scns)]
+        with open(os.path.join(gen, mod + ".tla"), "w") as f:
+            f.write(genmc.mc_module(mod, "JadeImpl", recs))
+        invs = invariants or ["MonitorClean", "N_OneSubmitterRole", "N_NodesBound", "N_CountersMatch", "N_DoneHasRow",
+                              "N_RowsUnique"]
+        cfg = ["SPECIFICATION Spec", "CONSTANTS", "  Scns <- ScnSet", f"  MaxB = {maxb}", f"  MaxUser = {maxuser}",
+               "  Monitor = TRUE", "  Log = TRUE", "  Fixed = {%s}" % ", ".join(json.dumps(x) for x in fixed),
+               "VIEW View"] + [f"INVARIANT {i}" for i in invs] + ["INVARIANT DumpBehaviour", "CHECK_DEADLOCK FALSE"]
+        cfgp = os.path.join(gen, mod + ".cfg")
+        with open(cfgp, "w") as f:
+            f.write("\n".join(cfg) + "\n")
+        res = tlc.run_tlc(mod, cfg=cfgp, workers=(1 if simulate else NCPU), cwd=gen, timeout=timeout, simulate=simulate)
+        ok = tlc.tlc_ok(res) or (simulate and "Error" not in res["out"] and res["rc"] in (0, -1))
+        for ext in (".tla", ".cfg"):
+            try:
+                os.remove(os.path.join(gen, mod + ext))
+            except OSError:
+                pass
+        self.models.append({"name": name, "module": "JadeImpl", "scenarios": len(scns), "states": res["distinct"],
+                            "transitions": res["states"], "wall_s": round(res["wall"], 1), "ok": bool(ok),
+                            "mode": "simulate" if simulate else "exhaustive", "constants": {"MaxB": maxb, "MaxUser": maxuser}})
+        if not ok:
+            raise tlc.TlcError(f"model {name} did not pass:\n" + res["out"][-3000:])
+        behs = replay_model.parse_behaviours(res["out"])
+        # distinct behaviours, deterministic sample
+        seen, uniq = set(), []
+        for b in behs:
+            k = json.dumps([b["scn"], b["path"]])
+            if k not in seen:
+                seen.add(k)
+                uniq.append(b)
+        uniq.sort(key=lambda b: json.dumps([b["scn"], b["path"]]))
+        rng = random.Random(self.seed)
+        if len(uniq) > max_replay:
+            uniq = rng.sample(uniq, max_replay)
+        tasks = [("model_replay", (scns[int(b["scn"][1:])], b["path"], maxb, b["elog"])) for b in uniq]
+        traces = run_tasks(tasks)
+        conf = self.extra.setdefault("conformance", {"behaviours_from_tlc": 0, "replayed": 0, "diverged": 0, "event_diffs": 0})
+        conf["behaviours_from_tlc"] += len(behs)
+        for tr in traces:
+            conf["replayed"] += 1
+            c = tr["conformance"]
+            if c["diverged"]:
+                conf["diverged"] += 1
+                self.notes.append("model-drift: schedule could not be followed: " + json.dumps(c["diverged"])[:300])
+            elif c["diff"]:
+                conf["event_diffs"] += 1
+                self.notes.append("model-drift: predicted and observed events differ: " + json.dumps(c["diff"])[:300])
+        if uniq and len(self.samples) < 3:
+            self.samples.append({"kind": "JadeImpl behaviour replayed into the real code", "scenario": compact_scn(scns[int(uniq[0]["scn"][1:])]),
+                                 "path": uniq[0]["path"][:60]})
+        self.judge(traces, "replays of JadeImpl behaviours")
         return res
 
     def judge(self, traces, what=""):
@@ -245,19 +315,39 @@ def seeds(ctx, n, salt=0):
     return [base + i for i in range(n)]
 
 
-def check_C01(ctx):
+RULE_PROTOCOL = ("(a) JadeImpl explored by TLC on small scenarios, every interleaving of login/compute-node submitter rounds, "
+                 "batch starts, job exits and recovery rounds; its behaviours replayed into the real code (conformance); "
+                 "(b) seeded random DAGs (listing order independent of dependency order), random submitter parameters (batch "
+                 "size / time-based batching with estimates / max nodes / try-add-blocked / groups), random interleavings, "
+                 "documented recovery rounds; distinct = distinct (scenario, schedule) pairs")
+
+
+def protocol_suite(ctx, n_quick=400, n_thorough=4000, gen_kw=None, salt=0):
     q = ctx.tier == "quick"
-    ctx.model("Batching N<=3 exhaustive", "Batching", "Batching_quick.cfg")
-    gen_kw = dict(n_min=2, n_max=6 if q else 9, groups_max=1)
-    tasks = [("random_hpc", (s, gen_kw)) for s in seeds(ctx, 400 if q else 4000)]
+    fam = families.protocol_quick() if q else families.protocol_thorough()
+    ctx.impl_model("JadeImpl protocol", fam, maxb=4 if not q else 3, maxuser=3 if q else 4, max_replay=300 if q else 2000)
+    kw = dict(n_min=2, n_max=6 if q else 9, groups_max=2)
+    kw.update(gen_kw or {})
+    tasks = [("random_hpc", (s, kw)) for s in seeds(ctx, n_quick if q else n_thorough, salt)]
     ctx.judge(run_tasks(tasks), "random HPC submissions")
-    return ctx.finish(rule="seeded random DAGs (listing order independent of dependency order), random submitter parameters "
-                           "(batch size / time-based batching with estimates / max nodes / try-add-blocked), random "
-                           "interleaving of login and compute-node submitter rounds, batch starts and job exits, documented "
-                           "recovery rounds; distinct = distinct (scenario, schedule) pairs")
+
+
+def check_C01(ctx):
+    ctx.model("Batching N<=3 exhaustive", "Batching", "Batching_quick.cfg")
+    protocol_suite(ctx, salt=1)
+    return ctx.finish(rule=RULE_PROTOCOL)
+
+
+def make_protocol_check(salt, gen_kw=None):
+    def chk(ctx):
+        protocol_suite(ctx, salt=salt, gen_kw=gen_kw)
+        return ctx.finish(rule=RULE_PROTOCOL)
+    return chk
 
 
 CHECKS = {"C01": check_C01}
+for _i, _p in enumerate(["C02", "C03", "C04", "C05", "C06", "C09"]):
+    CHECKS[_p] = make_protocol_check(10 + _i)
 
 
 def main(argv=None):
